@@ -17,8 +17,8 @@ from .common import E1_ASSUMPTIONS, E1_COMPONENTS, build_config, remove_outputs,
 ID = "C12"
 LEVEL = "exploration"
 TIERS = {
-    "quick": {"shards": 64, "examples": 10, "det_shards": 2},
-    "thorough": {"shards": 640, "examples": 30, "det_shards": 8},
+    "quick": {"shards": 128, "examples": 20, "det_shards": 2},
+    "thorough": {"shards": 1024, "examples": 60, "det_shards": 8},
 }
 RULE = ("case = (world, placement set): a tree (or a lone file) whose modules carry @module doccomments with/without a name "
         "and body, with settings (prefix absent / from -p / -s file / user config, separator, both extension options, header "
@@ -31,7 +31,7 @@ ASSUMPTIONS = E1_ASSUMPTIONS + [
     "does not choose); both are accepted",
     "the @module clauses are a pure function of the file text; they are checked because the pages exist, simulation adds "
     "nothing to them"]
-PROBES = ["single_file_input", "dir_input", "spelled_dot", "spelled_dotdot", "spelled_abs", "spelled_trailing_slash",
+PROBES = ["other_input_first", "single_file_input", "dir_input", "spelled_dot", "spelled_dotdot", "spelled_abs", "spelled_trailing_slash",
           "prefix_default", "prefix_cli", "prefix_sfile", "prefix_user", "sep_not_dot", "ext_in_titles", "ext_in_modules",
           "custom_headers", "module_named", "module_unnamed", "module_body", "depth_ge_2", "moved_tree"]
 
@@ -76,6 +76,7 @@ def strategy(cfg):
         locs = draw(st.lists(st.sampled_from(LOCS), min_size=1, max_size=2, unique=True))
         files = gen.base_files(None)
         files["cfg"] = None
+        files["decoys/zzdecoy/decoyfile.cmake"] = "function(zqdecoy a)\nendfunction()\n"
         for loc in locs:
             root = posixpath.join(loc, proj_name)
             files[root] = None
@@ -96,7 +97,9 @@ def strategy(cfg):
                 forms.append(posixpath.join(posixpath.relpath(posixpath.dirname(target), cwd or "."), "..",
                                             posixpath.basename(posixpath.dirname(target)), proj_name))
             placements.append({"loc": loc, "cwd": cwd, "input": draw(st.sampled_from(forms)),
-                               "prefix_src": draw(st.integers(0, 2)), "listing_key": draw(st.integers(0, 9))})
+                               "prefix_src": draw(st.integers(0, 2)), "listing_key": draw(st.integers(0, 9)),
+                               # another directory documented first in the same invocation
+                               "decoy_first": draw(st.integers(0, 3)) == 0})
         return {"files": files, "proj_name": proj_name, "tree": tree, "single": single, "prefix": prefix, "rst": rst,
                 "placements": placements}
     return world()
@@ -232,7 +235,9 @@ def evaluate(spec, ctx):
                 argv += ["-s", "{BASE}/cfg/s.yaml"]
             if u_text:
                 core.materialise(base, {"home/.config/cminx/config.yaml": u_text})
-            argv += ["-o", "{BASE}/out", pl["input"]]
+            argv += ["-o", "{BASE}/out"] + (["{BASE}/decoys/zzdecoy"] if pl.get("decoy_first") else []) + [pl["input"]]
+            if pl.get("decoy_first"):
+                ctx.probes["other_input_first"] += 1
             res = core.run_call(base, {"cwd": pl["cwd"], "argv": argv, "listing_key": pl["listing_key"]})
             ctx.note_call(res)
             if res.status != 0:
@@ -244,6 +249,8 @@ def evaluate(spec, ctx):
             for k, text in sorted(pages.items()):
                 if spec["single"]:
                     rel = spec["single"]
+                    if k != refs.stem(posixpath.basename(rel)) + ".rst":
+                        continue
                 else:
                     d = posixpath.dirname(k)
                     cands = [f for f in ch.get(d, ([], []))[1] if refs.is_cmake(f) and refs.stem(f) == posixpath.basename(k)[:-4]]
